@@ -131,6 +131,22 @@ CHECKS = {
              'out=a, out=b, out=a=b must equal the non-aliased result (bytes for integers and field elements, group equality for points). Restrict operands are never aliased.',
         note='The non-aliased result is what C02-C08 judge. Operand values: specials + seeded random (24 per row quick, 1200 thorough).',
         ref='DESIGN.md section 3 C18'),
+    'C19': dict(
+        technique='run-time layout probes compiled as C and as C++ and diffed under both word sizes; constants vs reference model; one behavioural differential row per extern "C" symbol found by nm',
+        text='A C translation unit built from the shipped headers and a C++ one print sizeof/alignof/offsetof/member size for all 29 mirrored structs (incl. private pair fields and '
+             'coeffs[68] vs num_coeffs); tables must be identical for 64-bit and 32-bit word typedefs, assembly and portable. Exported constants equal the C++ values and the reference '
+             'model (r, generators, sizes, generator pairing). Every one of the 108 extern "C" functions in the built objects is called next to the C++ operation it forwards to on the same '
+             'inputs and PRNG state (wrapper bound to a wrong-but-similar operation, swapped arguments, dropped flag); a function without a row fails the run.',
+        note='Go bindings cannot run here (no toolchain); cgo consumes these same headers. The mapping wrapper -> intended C++ operation is taken from the header names/documentation.',
+        ref='DESIGN.md section 3 C19'),
+    'C20': dict(
+        technique='executed freestanding closure link, strace bracket, writable-symbol snapshot, ThreadSanitizer runs with result comparison against sequential replay and an observed-overlap matrix',
+        text='(1) undefined-symbol table of every object vs the allowed set and a -nostdlib -static link with a runtime offering only mem* + libgcc that runs initialisers and a '
+             'pairing/WKD-IBE/LQ-IBE workload (prod, portable-64, portable-32); (2) no system call between markers bracketing all 12 API families; (3) all writable library symbols '
+             'unchanged by the workload; (4) TSan builds, 4/8/16 threads from a barrier, seeded mixes on private outputs sharing const inputs, frequently the same operation at once: no '
+             'report, results identical to sequential replay; evidence lists the operation-family pairs actually seen overlapping.',
+        note='A finite number of schedules is observed. TSan cannot see inside the assembly routines (they touch only their arguments).',
+        ref='DESIGN.md section 3 C20'),
 }
 
 NOT_YET = 'check not built yet in this round (planned, see DESIGN.md section 3)'
